@@ -32,3 +32,23 @@ Definition check_simple (c : simple_case) : N :=
   let parsed := match r with ROk _ => true | RErr _ => false end in
   let cons := match r with ROk (ps, cs) => consistentb ps cs | RErr _ => false end in
   ((if agree then 1 else 0) + (if parsed then 2 else 0) + (if cons then 4 else 0) + (if simple_accepts j then 8 else 0))%N.
+
+(* ---- rooms file / --rooms option ---- *)
+Definition rooms_file_case := (json * option (list (string * Z * Z)))%type.   (* None: refused; Some: the kinds as returned *)
+Definition kind3_eqb (a b : string * Z * Z) : bool := String.eqb (fst (fst a)) (fst (fst b)) && (snd (fst a) =? snd (fst b))%Z && (snd a =? snd b)%Z.
+(* rooms::read returns the kinds sorted by capacity (stable) and reversed, as RoomsModel.kinds_read *)
+Fixpoint insert_kind3 (x : string * Z * Z) (l : list (string * Z * Z)) : list (string * Z * Z) :=
+  match l with [] => [x] | y :: t => if (snd (fst x) <? snd (fst y))%Z then x :: l else y :: insert_kind3 x t end.
+Definition sort_kinds3 (raw : list (string * Z * Z)) : list (string * Z * Z) := rev (fold_left (fun acc x => insert_kind3 x acc) raw []).
+(* bits: 1 model and implementation agree (Some: the kinds as returned by rooms::read) | 2 accepted *)
+Definition check_rooms_file (c : rooms_file_case) : N :=
+  let '(j, e) := c in
+  let r := rooms_file_read j in
+  let agree := match r, e with RErr _, None => true | ROk ks, Some eks => eqb_list kind3_eqb (sort_kinds3 ks) eks | _, _ => false end in
+  ((if agree then 1 else 0) + (match r with ROk _ => 2 | RErr _ => 0 end))%N.
+Definition rooms_opt_case := (string * option (list Z))%type.
+Definition check_rooms_opt (c : rooms_opt_case) : N :=
+  let '(s, e) := c in
+  let r := rooms_option_read s in
+  let agree := match r, e with RErr _, None => true | ROk l, Some el => eqb_list Z.eqb l el | _, _ => false end in
+  ((if agree then 1 else 0) + (match r with ROk _ => 2 | RErr _ => 0 end))%N.
